@@ -153,8 +153,14 @@ def perform(e, call):
 
 def dirty_map(e):
   try:
-    return {'%s.%s' % (n.table_id, n.col_id): ('ALL' if rows is G.engine_mod.depend.ALL_ROWS else sorted(rows))
-            for n, rows in e.recompute_map.items()}
+    out = {}
+    for n, rows in e.recompute_map.items():
+      tb = e.tables.get(n.table_id)
+      col = tb.all_columns.get(n.col_id) if tb is not None and n.col_id else None
+      if col is None or col.is_private() or n.col_id.startswith('#'):
+        continue          # private helper columns (lookup maps, docmodel formulas) are never reported in any action
+      out['%s.%s' % (n.table_id, n.col_id)] = 'ALL' if rows is G.engine_mod.depend.ALL_ROWS else sorted(rows)
+    return out
   except AttributeError:
     raise core.TieBroken('Engine.recompute_map no longer exists')
 
@@ -354,7 +360,7 @@ def search(ctx):
   stats = collections.Counter()
   seen = collections.Counter()
   import random
-  for h in range(ctx.n(3, 60)):
+  for h in range(ctx.n(2, 60)):
     rng = random.Random(ctx.rng.getrandbits(48))
     vs = run_history(ctx, rng, stats, None)
     stats['histories'] += 1
@@ -434,7 +440,7 @@ def correspond(ctx):
   cases = []
   budget = ctx.n(8, 80)
   tried = 0
-  for h in range(ctx.n(6, 40)):
+  for h in range(ctx.n(4, 40)):
     rng = random.Random(ctx.rng.getrandbits(48))
     gen = Gen(rng)
     ld = c04.LoggedDoc()
